@@ -20,6 +20,7 @@ Tie to the code (every run, against VERIF_REPO's current working tree):
     clear-cut lexical samples per validator; the non-vacuity examples of Props/C13.v; a list of
     constraints the SAML 2.0 core / metadata schemas impose (SPEC_ANCHORS).
 """
+import os
 import re
 
 import core
@@ -49,6 +50,10 @@ RULE = ("for every class: minimal valid instance; each required attribute missin
         "Non-trivial = exactly one constraint violated (distinct by class, constraint, nesting)")
 
 IMPORTS = "Model.Schema Model.Validate Gen.SchemaTables"
+# the statement says that validation FAILS, not with which exception class: accepted / raises is compared;
+# C13_EXACT=1 compares the classes too (they agree today)
+EXACT = os.environ.get("C13_EXACT") == "1"
+SHOW = "show_unit" if EXACT else "show_unit_coarse"
 
 INT_RANGES = {
     "integer": (None, None), "nonNegativeInteger": (0, None), "PositiveInteger": (1, None), "unsignedShort": (0, 65535),
@@ -146,16 +151,16 @@ MEMBERS = ("x_xsi_nil m_subject m_attribute_statement m_statement m_authn_statem
 
 
 def model_expr(fn):
-    return "fun i : inst => show_unit (%s (prim_of %s) validator_keys actual_schema %s i)" % (fn, prim_table_coq(), MEMBERS)
+    return "fun i : inst => %s (%s (prim_of %s) validator_keys actual_schema %s i)" % (SHOW, fn, prim_table_coq(), MEMBERS)
 
 
 def vi_spec_expr():
     """valid_instance(obj) and, unless the generator makes no claim (9), the executable hypotheses of the
     theorems: 0 = goodb, 1 = has_violation, 2 = neither"""
     return ("fun p : inst * Z => let P := prim_of %s in "
-            "VL [show_unit (valid_instance P validator_keys actual_schema %s (fst p)); "
+            "VL [%s (valid_instance P validator_keys actual_schema %s (fst p)); "
             "if (snd p =? 9)%%Z then VZ 9%%Z else show_spec (goodb P validator_keys actual_schema %s (fst p)) (has_violation P validator_keys actual_schema (fst p))]"
-            % (prim_table_coq(), MEMBERS, MEMBERS))
+            % (prim_table_coq(), SHOW, MEMBERS, MEMBERS))
 
 
 class Builder(object):
@@ -413,6 +418,13 @@ def outcome(r):
     return r if isinstance(r, Exn) else True
 
 
+def obs(r):
+    """the compared observable: True | Exn(class) when C13_EXACT, else True | Exn(raises)"""
+    if isinstance(r, Exn):
+        return r if EXACT else Exn("raises")
+    return True
+
+
 def decorate(T, o):
     """a copy of o with content validation must ignore: text where the class has no value type, a foreign attribute"""
     import copy
@@ -560,18 +572,18 @@ def check_valid(ctx, T, B):
     cases = []
     for t in names + [None]:
         impl = [outcome(call(validate.valid, t, v)) for v in PROBES]
-        cases.append(dict(id="valid:%r" % (t,), coq=cstr(t or ""), impl=impl, show=dict(typ=t)))
+        cases.append(dict(id="valid:%r" % (t,), coq=cstr(t or ""), impl=[obs(x) for x in impl], show=dict(typ=t)))
         k = B.resolve(t)
         ctx.count("valid:resolves-to:" + ("string-fallback" if k == "string" and (t or "").rsplit(":", 1)[-1].lower() != "string" else "named-validator"))
         # the statement's reading, on the implementation: the type name selects THAT validator, no KeyError
         exp = [True if real_prim(k, v) is True else Exn("NotValid") for v in PROBES]
         if t in base or t is None:
             ctx.nontriv(("valid", t))
-            if impl != exp:
-                i = next(j for j in range(len(PROBES)) if impl[j] != exp[j])
+            if [x is True for x in impl] != [x is True for x in exp]:
+                i = next(j for j in range(len(PROBES)) if (impl[j] is True) != (exp[j] is True))
                 ctx.oracle_fail("type-name:%s" % t, "valid(%r, %r) -> %r, but the validator of %s gives %r" % (t, PROBES[i], impl[i], k, exp[i]),
                                 {"unit": "valid", "typ": t, "value": PROBES[i]})
-    model = "fun t : str => VL (map (fun v => show_unit (valid (prim_of %s) validator_keys t v)) %s)" % (prim_table_coq(), "[" + ";".join(cstr(v) for v in PROBES) + "]")
+    model = "fun t : str => VL (map (fun v => %s (valid (prim_of %s) validator_keys t v)) %s)" % (SHOW, prim_table_coq(), "[" + ";".join(cstr(v) for v in PROBES) + "]")
     corr_retry.correspond(ctx, "valid", IMPORTS, model, "str", cases, shard=200, timeout=600)
 
 
@@ -621,7 +633,7 @@ def check_vvt(ctx, T, B):
         for v in dict.fromkeys(values):
             r = call(validate.validate_value_type, v, spec)
             impl = r if isinstance(r, Exn) else True
-            cases.append(dict(id="vvt:%r:%r" % (vt, v), coq="(%s,%s)" % (cstr(v), vt_coq(vt)), impl=impl, show=dict(spec=spec, value=v)))
+            cases.append(dict(id="vvt:%r:%r" % (vt, v), coq="(%s,%s)" % (cstr(v), vt_coq(vt)), impl=obs(impl), show=dict(spec=spec, value=v)))
             ctx.count("vvt:%s" % (impl.name if isinstance(impl, Exn) else "accepted"))
             if en is not None and maxlen is None:
                 ctx.nontriv(("vvt", vt, v))
@@ -644,7 +656,7 @@ def check_vvt(ctx, T, B):
         if k in TABLE_KEYS and not all((k, x) in tab for x in parts):
             continue
         keep.append(c)
-    model = "fun p : str * vtype => show_unit (validate_value_type (prim_of %s) validator_keys (fst p) (snd p))" % prim_table_coq()
+    model = "fun p : str * vtype => %s (validate_value_type (prim_of %s) validator_keys (fst p) (snd p))" % (SHOW, prim_table_coq())
     corr_retry.correspond(ctx, "vvt", IMPORTS, model, "str * vtype", keep, shard=300, timeout=600)
 
 
@@ -1015,10 +1027,10 @@ def run(ctx):
         show = dict(cls=T.qname[T.cid[type(o)]], violated_class=qn, kind=kind, member=member, nest=nest, idx=idx)
         cid_ = "%s:%s:%s:%d:%s" % (qn, kind, member, idx, nest)
         claim = 9 if violated is None else 1 if violated else 0
-        vi_cases.append(dict(id=cid_, coq="(%s,(%d)%%Z)" % (coq, claim), impl=[r, claim], show=show))
+        vi_cases.append(dict(id=cid_, coq="(%s,(%d)%%Z)" % (coq, claim), impl=[obs(r), claim], show=show))
         if T.rows[T.cid[type(o)]]["verify"] or nest == "root" and kind.startswith(("override", "av")):
             r2 = outcome(call(o.verify))
-            ver_cases.append(dict(id="verify:" + cid_, coq=coq, impl=r2, show=show))
+            ver_cases.append(dict(id="verify:" + cid_, coq=coq, impl=obs(r2), show=show))
         if violated is not None:
             spec_cases.append(cid_)
         ctx.count("%s:%s" % (kind.split(":")[0] if not kind.startswith("override") else "override", r.name if isinstance(r, Exn) else "accepted"))
